@@ -224,6 +224,13 @@ def m_string_remove(ex, st, c):
     return r
 
 
+@model(r'^slice::<impl \[.*\]>::sort_by$', r'^slice::<impl \[.*\]>::sort$', r'^slice::<impl \[.*\]>::sort_unstable$', r'^slice::<impl \[.*\]>::sort_by_key$')
+def m_sort(ex, st, c):
+    v = D(ex, st, c.args[0])
+    if isinstance(v, Vec) and len(v.items) <= 1: return UNIT
+    raise Unsupported('sort of %d elements (only 0/1-element slices are modelled)' % (len(v.items) if isinstance(v, Vec) else -1))
+
+
 @model(r'^Vec::<.*>::clear$', r'^String::clear$', r'^Vec::clear$')
 def m_clear(ex, st, c):
     a = D(ex, st, c.args[0])
@@ -557,7 +564,7 @@ def m_replace(ex, st, c):
         n = D(ex, st, c.args[3])
         if not n.conc: raise Unsupported('replacen symbolic count')
         limit = n.v
-    return replace_str(s, frm, to, limit)
+    return replace_str(s, frm, to, limit, hard_cap=ex.str_cap)
 
 
 def compact(f, keeps):
@@ -626,7 +633,7 @@ def replace_by_pred(ex, st, s, clo, to):
     return step(0, [])
 
 
-def replace_str(s, frm, to, limit=None):
+def replace_str(s, frm, to, limit=None, hard_cap=None):
     ff = frm.flat()
     if not ff.conc_len: raise Unsupported('replace with symbolic-length pattern')
     pl = ff.ln
@@ -667,6 +674,9 @@ def replace_str(s, frm, to, limit=None):
     if not tf.conc_len: raise Unsupported('replace with symbolic-length replacement')
     tl = tf.ln
     cap_out = n if tl <= pl else (n // pl) * tl + (n % pl)
+    capped = False
+    if hard_cap is not None and cap_out > hard_cap:
+        cap_out = hard_cap; capped = True      # the caller gets a fork: (length exceeds the cap -> terminal 'bound:strcap') / result
     if cap_out > 250: raise Unsupported('replace output too long for the 8-bit offset circuit')
     rem = 0; count = 0
     emits = []      # per input position: (start, keep)
@@ -704,7 +714,20 @@ def replace_str(s, frm, to, limit=None):
                     if sel is not False: b = ite_bv(sel, tf.bs[k], b, 8)
         out.append(b)
     ln = total if isinstance(total, int) else z3.ZeroExt(LW - 8, total)
-    return SymStr((Atom(ln, tuple(out)),))
+    result = SymStr((Atom(ln, tuple(out)),))
+    if capped:
+        # offsets are 8-bit: keep them exact by also bounding the number of expansions (n + matches*(tl-pl) <= 255 is implied by hard_cap <= 250)
+        nm = 0
+        for st_, _ in emits: nm = bv_add(nm, ite_bv(st_, 1, 0, 8), 8)
+        # true length as a 16-bit quantity (cannot wrap): kept bytes + matches * tl
+        kept = 0
+        for _, kp in emits: kept = bv_add(kept, ite_bv(kp, 1, 0, 16), 16)
+        nm16 = 0
+        for st_, _ in emits: nm16 = bv_add(nm16, ite_bv(st_, tl, 0, 16), 16)
+        true_len = bv_add(kept, nm16, 16)
+        over = bv_ult(hard_cap, true_len, 16)
+        return Fork([(over, StopR('bound:strcap', 'replace result longer than %d bytes' % hard_cap)), (b_not(over), result)])
+    return result
 
 
 def is_ws(b):
